@@ -7,12 +7,16 @@ import FalconModel.CookieOut
 
     `datetime.strptime(s, fmt)` compiles `fmt` into a regular expression (flag `IGNORECASE`), requires `re.match` to succeed
     and to end at `len(s)`, converts the named groups with `int()` / `list.index`, and hands `(Y, m, d, H, M, S)` to
-    `datetime(...)`.  For the five formats that `http_date_to_dt` uses the patterns are (C locale, `time.tzname = ('UTC','UTC')`):
+    `datetime(...)`.  For the five formats that `http_date_to_dt` uses the patterns are (C locale):
 
         %a  (?P<a>mon|tue|wed|thu|fri|sat|sun)                    %A  (?P<A>wednesday|thursday|saturday|tuesday|monday|friday|sunday)
         %b  (?P<b>jan|feb|...|dec)                                %d  (?P<d>3[0-1]|[1-2]\d|0[1-9]|[1-9]| [1-9])
         %Y  (?P<Y>\d\d\d\d)      %y  (?P<y>\d\d)                  %H  (?P<H>2[0-3]|[0-1]\d|\d)
-        %M  (?P<M>[0-5]\d|\d)    %S  (?P<S>6[0-1]|[0-5]\d|\d)     %Z  (?P<Z>gmt|utc)          ' ' -> \s+
+        %M  (?P<M>[0-5]\d|\d)    %S  (?P<S>6[0-1]|[0-5]\d|\d)     %Z  (?P<Z>gmt|utc|<tz>)     ' ' -> \s+
+
+    `%Z` is the only place where the process time zone enters: `LocaleTime.__calc_timezone` offers `utc`, `gmt` and
+    `time.tzname[0].lower()` (plus `time.tzname[1].lower()` if `time.daylight`), and `__seqToRE` orders the alternatives by
+    decreasing length (`zoneAlts`).  The matched zone is never used: `http_date_to_dt` does `.replace(tzinfo=timezone.utc)`.
 
     The expression is replaced by a native left-to-right scanner (`scan`).  It is deterministic, so backtracking never
     changes the outcome: no day/month name is a prefix of another one; every numeric directive is followed by a
@@ -56,7 +60,18 @@ def wdFulls : List Str :=
 def monAbbrs : List Str :=
   [['j', 'a', 'n'], ['f', 'e', 'b'], ['m', 'a', 'r'], ['a', 'p', 'r'], ['m', 'a', 'y'], ['j', 'u', 'n'], ['j', 'u', 'l'], ['a', 'u', 'g'],
    ['s', 'e', 'p'], ['o', 'c', 't'], ['n', 'o', 'v'], ['d', 'e', 'c']]
-def zoneNames : List Str := [['g', 'm', 't'], ['u', 't', 'c']]
+
+/-- `sorted(to_convert, key=len, reverse=True)` (stable) -/
+def insertLen (n : Str) : List Str → List Str
+  | [] => [n]
+  | m :: ms => if m.length < n.length then n :: m :: ms else m :: insertLen n ms
+
+def sortLen : List Str → List Str
+  | [] => []
+  | n :: ns => insertLen n (sortLen ns)
+
+/-- the alternatives of `%Z`: `utc`, `gmt` and the lower-cased names `tzn` of the process time zone, longest first -/
+def zoneAlts (tzn : List Str) : List Str := sortLen ([['u', 't', 'c'], ['g', 'm', 't']] ++ tzn)
 
 /-- maximal run of digits and what follows it -/
 def spanDig : Str → Str × Str
@@ -99,7 +114,7 @@ def numY2 : Str → Option Nat
 
 /-- the pieces of a compiled format -/
 inductive Item where
-  | wdAbbr | wdFull | lit (c : Char) | ws | day | mon | year4 | year2 | hour | minute | second | gmt | zone
+  | wdAbbr | wdFull | lit (c : Char) | ws | day | mon | year4 | year2 | hour | minute | second | gmt | zone (alts : List Str)
   deriving Repr, DecidableEq
 
 /-- `year = None (-> 1900); month = day = 1; hour = minute = second = 0` -/
@@ -139,8 +154,8 @@ def scan : List Item → Str → Fields → Option Fields
     match ciPrefix ['g', 'm', 't'] s with
     | some r => scan is r f
     | none => none
-  | .zone :: is, s, f =>
-    match firstName zoneNames 0 s with
+  | .zone alts :: is, s, f =>
+    match firstName alts 0 s with
     | some (_, r) => scan is r f
     | none => none
   | .day :: is, s, f =>
@@ -189,22 +204,31 @@ def hms : List Item := [.hour, .lit ':', .minute, .lit ':', .second]
 /-- `'%a, %d %b %Y %H:%M:%S GMT'` -/
 def fmtImf : List Item := [.wdAbbr, .lit ',', .ws, .day, .ws, .mon, .ws, .year4, .ws] ++ hms ++ [.ws, .gmt]
 /-- `'%a, %d %b %Y %H:%M:%S %Z'` -/
-def fmtImfZ : List Item := [.wdAbbr, .lit ',', .ws, .day, .ws, .mon, .ws, .year4, .ws] ++ hms ++ [.ws, .zone]
+def fmtImfZ (z : List Str) : List Item := [.wdAbbr, .lit ',', .ws, .day, .ws, .mon, .ws, .year4, .ws] ++ hms ++ [.ws, .zone z]
 /-- `'%a, %d-%b-%Y %H:%M:%S %Z'` -/
-def fmtDash4 : List Item := [.wdAbbr, .lit ',', .ws, .day, .lit '-', .mon, .lit '-', .year4, .ws] ++ hms ++ [.ws, .zone]
+def fmtDash4 (z : List Str) : List Item := [.wdAbbr, .lit ',', .ws, .day, .lit '-', .mon, .lit '-', .year4, .ws] ++ hms ++ [.ws, .zone z]
 /-- `'%A, %d-%b-%y %H:%M:%S %Z'` (RFC 850) -/
-def fmtRfc850 : List Item := [.wdFull, .lit ',', .ws, .day, .lit '-', .mon, .lit '-', .year2, .ws] ++ hms ++ [.ws, .zone]
+def fmtRfc850 (z : List Str) : List Item := [.wdFull, .lit ',', .ws, .day, .lit '-', .mon, .lit '-', .year2, .ws] ++ hms ++ [.ws, .zone z]
 /-- `'%a %b %d %H:%M:%S %Y'` (ANSI C `asctime`) -/
 def fmtAsctime : List Item := [.wdAbbr, .ws, .mon, .ws, .day, .ws] ++ hms ++ [.ws, .year4]
 
-/-- `falcon.util.misc.http_date_to_dt(http_date, obs_date)`; `none` = `ValueError`.
-    With `obs_date` the formats are tried in order and a `ValueError` of any kind (also from the `datetime` constructor) moves on. -/
-def httpDateToDt (obs : Bool) (s : Str) : Option Cw.Civil :=
+/-- `falcon.util.misc.http_date_to_dt(http_date, obs_date)` in a process whose time zone names are `tzn`; `none` = `ValueError`.
+    With `obs_date` the formats are tried in order and a `ValueError` of any kind (also from the `datetime` constructor) moves on.
+    The result is `.replace(tzinfo=timezone.utc)` of the naive fields: the fields as read, whatever the process time zone. -/
+def httpDateToDt (tzn : List Str) (obs : Bool) (s : Str) : Option Cw.Civil :=
   if !obs then strptime fmtImf s
-  else (strptime fmtImfZ s).orElse fun _ => (strptime fmtDash4 s).orElse fun _ => (strptime fmtRfc850 s).orElse fun _ => strptime fmtAsctime s
+  else (strptime (fmtImfZ (zoneAlts tzn)) s).orElse fun _ => (strptime (fmtDash4 (zoneAlts tzn)) s).orElse fun _ =>
+    (strptime (fmtRfc850 (zoneAlts tzn)) s).orElse fun _ => strptime fmtAsctime s
 
-/-- `falcon.util.misc.dt_to_http(dt)` = `dt.strftime('%a, %d %b %Y %H:%M:%S GMT')` (glibc: `%Y` is not zero-padded) -/
-def dtToHttp (c : Cw.Civil) : Str := Cw.imfDate c
+/-- `'{:04d}'.format(year)` for a year below 10000 -/
+def pad4z (y : Nat) : Str := [Cw.digit (y / 1000), Cw.digit (y / 100), Cw.digit (y / 10), Cw.digit y]
+
+/-- `falcon.util.misc.dt_to_http(dt)` = `dt.strftime('%a, %d %b {:04d} %H:%M:%S GMT').format(dt.year)` (fix 8cb1d9b: the year
+    is zero-padded by Python, not left to the C library's `%Y`) -/
+def dtToHttp (c : Cw.Civil) : Str := Cw.wdName (Cw.weekdayOfOrd (Cw.ymd2ord c.year c.month c.day)) ++ Cw.dateTail c (pad4z c.year)
+
+/-- before 8cb1d9b: `dt.strftime('%a, %d %b %Y %H:%M:%S GMT')`, where glibc's `%Y` does not pad (kept as a regression witness) -/
+def dtToHttpUnpadded (c : Cw.Civil) : Str := Cw.imfDate c
 
 /-! ### the request side -/
 inductive DateRes where
@@ -214,17 +238,17 @@ inductive DateRes where
   | invalid400             -- `HTTPInvalidHeader`
   deriving Repr, DecidableEq
 
-/-- `req.get_header_as_datetime(header, required, obs_date)` given the header's value -/
-def getHeaderAsDatetime (value : Option Str) (required obs : Bool) : DateRes :=
+/-- `req.get_header_as_datetime(header, required, obs_date)` given the header's value (`tzn`: the process time zone names) -/
+def getHeaderAsDatetime (tzn : List Str) (value : Option Str) (required obs : Bool) : DateRes :=
   match value with
   | none => if required then .missing400 else .absent
   | some v =>
-    match httpDateToDt obs v with
+    match httpDateToDt tzn obs v with
     | some c => .ok c
     | none => .invalid400
 
 /-- `req.date`, `req.if_modified_since`, `req.if_unmodified_since` given the value of their header -/
-def reqDate (value : Option Str) : DateRes := getHeaderAsDatetime value false false
+def reqDate (value : Option Str) : DateRes := getHeaderAsDatetime [] value false false
 
 /-! ### the two obsolete renderings (RFC 9110 5.6.7), to say what `obs_date=True` reads -/
 def wdFullName (wd : Nat) : Str :=
@@ -248,6 +272,6 @@ def day2sp (d : Nat) : Str := if d < 10 then [' ', Cw.digit d] else Cw.pad2 d
 
 /-- asctime-date: `day-name SP month SP ( 2DIGIT / ( SP 1DIGIT )) SP time-of-day SP 4DIGIT` -/
 def asctimeDate (c : Cw.Civil) : Str :=
-  Cw.wdName (civilWeekday c) ++ [' '] ++ Cw.monName c.month ++ [' '] ++ day2sp c.day ++ [' '] ++ timeOfDay c ++ [' '] ++ Cw.natDec c.year
+  Cw.wdName (civilWeekday c) ++ [' '] ++ Cw.monName c.month ++ [' '] ++ day2sp c.day ++ [' '] ++ timeOfDay c ++ [' '] ++ pad4z c.year
 
 end Dt
